@@ -27,6 +27,16 @@ def main():
     hard = float(shard.get('hard_timeout', 600))
     faulthandler.enable()
     faulthandler.dump_traceback_later(hard, exit=True)
+    cov = None
+    if os.environ.get('VF_COV_DIR'):
+        # coverage survey (tooling, `python -m vf.covsurvey`): which lines of the
+        # library the workloads reach.  Never set by ./check itself.
+        import coverage
+        cov = coverage.Coverage(
+            data_file=os.path.join(os.environ['VF_COV_DIR'], f".cov.{spec['prop']}"),
+            data_suffix=True, source=[os.path.join(REPO, 'sc3')],
+            concurrency=['thread'], config_file=False)
+        cov.start()
     try:
         mode = shard.get('mode', 'nrt')
         if mode in ('rt', 'nrt'):
@@ -50,6 +60,12 @@ def main():
         result['internal_error'] = short_tb(e, 12)
     finally:
         faulthandler.cancel_dump_traceback_later()
+        if cov is not None:
+            try:
+                cov.stop()
+                cov.save()
+            except Exception:
+                pass
         tmp = out + '.tmp'
         with open(tmp, 'w') as f:
             json.dump(result, f)
